@@ -180,3 +180,9 @@ def Brk.finishOut {σ ρ : Type} (c : Brk σ ρ) (k : σ → Out ρ) : Out ρ :=
 /-- `strings.Split(s, sep)` for a non-empty literal `sep` -/
 def strSplit (s sep : String) : List String := s.splitOn sep
 end Sema.Go
+
+namespace Sema.Go
+/-- Go `int` / `int64` results of `+`, `-`, `*` on a 64-bit platform (two's complement wrap), used by
+translations with `WrapInt` (no no-overflow assumption there; operands are assumed in range) -/
+def wrap64 (x : Int) : Int := (x + 2 ^ 63) % 2 ^ 64 - 2 ^ 63
+end Sema.Go
